@@ -20,7 +20,7 @@ META = dict(
     bounds=dict(image="14 x 14 (20 x 20 thorough), every pixel symbolic", polylines="horizontal, vertical, diagonal, slope-1/2 'general', curved; 4..6 vertices",
                 layers="0, 1 (2 thorough)", placement="rescale in {(1,1),(2,1),(1,2)} (+(2,3) thorough), offset in {(0,0),(1,2),(0,1),(1,0)}", lists="1..3 interfaces, with a repeated interface"),
     outside=["vertex positions are concrete", "8-bit saturation", "image sizes beyond 20 x 20", "read_myosin's file handling (PIL.Image.open)"],
-    assumptions=["'average' normalisation: all pixels positive, the mean intensity is non-zero (division not forked on)",
+    assumptions=["'average' normalisation: the mean intensity is non-zero (one job per sign of the mean; without integration pixels of either sign, with integration all pixels of that sign; division not forked on)",
                  "PIL getpixel((x, y)) reads pixel (int(x), int(y)) (truncation; measured on Pillow 12.3)", "np.median = median (If-term sorting network shim)"],
     trusted=["z3"],
 )
@@ -79,6 +79,7 @@ def _band(pts, L, rescale, offset):
     """distinct pixels of the layered band along the polyline + its length, from the property statement."""
     xy = [(p[0] * rescale[0] + offset[0], p[1] * rescale[1] + offset[1]) for p in pts]
     pixels = set()
+    positions = set()
     length = 0.0
     for a, b in zip(xy[:-1], xy[1:]):
         a0, b0 = (math.ceil(a[0]), math.ceil(a[1])), (math.ceil(b[0]), math.ceil(b[1]))
@@ -91,11 +92,13 @@ def _band(pts, L, rescale, offset):
             pos = (v, other) if ax == 0 else (other, v)
             for q in _window(pos, L):
                 pixels.add((int(q[0]), int(q[1])))
+                positions.add((round(q[0], 9), round(q[1], 9)))
         length += math.hypot(a[0] - b[0], a[1] - b[1])
+    _band.positions = sorted(positions)
     return pixels, length
 
 
-def statistic(env, kinds, layers, integrate, normalize, rescale, offset, size=14):
+def statistic(env, kinds, layers, integrate, normalize, rescale, offset, size=14, sign=1):
     import forsys as fs
     import forsys.myosin as my
     img = SymImage(env, size, size)
@@ -104,35 +107,60 @@ def statistic(env, kinds, layers, integrate, normalize, rescale, offset, size=14
     if normalize == "average":
         for x in range(size):
             for y in range(size):
-                env.assume(img.pixel(x, y) > 0)
-                env.hint_positive(f"px_{x}_{y}")
-    res = my.get_intensities(bes, img, integrate, normalize, layers, **kw)
+                (env.hint_positive(f"px_{x}_{y}") if sign > 0 else env.hint_value(f"px_{x}_{y}", -1.0 - ((3 * x + 5 * y) % 7) / 7.0))
     raw = []
+    actual = []      # integrate=True: what the recorded finding leaves of the statement (one term per band *position*)
+    dup = False
     for k in kinds:
         pts = LINES[k]
         if integrate:
             pix, length = _band(pts, layers, rescale, offset)
             raw.append(sum((img.pixel(x, y) for (x, y) in sorted(pix)[1:]), img.pixel(*sorted(pix)[0])) / length)
+            pos = _band.positions
+            dup = dup or len(pos) != len(pix)
+            actual.append(sum((img.pixel(int(x), int(y)) for (x, y) in pos[1:]), img.pixel(int(pos[0][0]), int(pos[0][1]))) / length)
         else:
             meds = []
             for p in pts:
                 pos = (p[0] * rescale[0] + offset[0], p[1] * rescale[1] + offset[1])
                 meds.append(_median(env, [img.pixel(int(q[0]), int(q[1])) for q in _window(pos, layers)]))
             raw.append(sum(meds[1:], meds[0]) / len(meds))
+    if normalize == "average":
+        # the mean intensity is non-zero: one job per sign (pixels themselves are unconstrained)
+        mean0 = sum(raw[1:], raw[0]) / len(raw)
+        if integrate:
+            # the band the code sums differs from the oracle's (recorded finding), so its mean is pinned through the pixels
+            for x in range(size):
+                for y in range(size):
+                    env.assume(img.pixel(x, y) > 0 if sign > 0 else img.pixel(x, y) < 0)
+        else:
+            env.assume(mean0 > 0 if sign > 0 else mean0 < 0)
+    res = my.get_intensities(bes, img, integrate, normalize, layers, **kw)
     obs = [Ob("one-value-per-interface-keyed-by-list-position", sorted(res.keys()) == list(range(len(kinds))))]
     if sorted(res.keys()) != list(range(len(kinds))):
         return obs
     ok = env.true()
+    ok2 = env.true()
     if normalize == "average":
         mean = sum(raw[1:], raw[0]) / len(raw)
         for i in range(len(kinds)):
             ok = ok & env.eq(res[i] * mean, raw[i], tol=1e-9)
+        if integrate and dup:
+            mean2 = sum(actual[1:], actual[0]) / len(actual)
+            for i in range(len(kinds)):
+                ok2 = ok2 & env.eq(res[i] * mean2, actual[i], tol=1e-9)
         obs.append(Ob("average-normalised-values-average-to-one", env.eq(sum((res[i] for i in range(1, len(kinds))), res[0]), len(kinds), tol=1e-9)))
     else:
         for i in range(len(kinds)):
             ok = ok & env.eq(res[i], raw[i], tol=1e-9)
+            if integrate and dup:
+                ok2 = ok2 & env.eq(res[i], actual[i], tol=1e-9)
+    # the recorded finding is confined to bands in which two positions read the same pixel; elsewhere the statement is
+    # claimed in full, and inside the only tolerated deviation is that double counting
     obs.append(Ob("value-is-the-window-or-band-statistic" + ("-integrated" if integrate else ""), ok,
-                  finding="band_positions_not_pixels" if integrate else None))
+                  finding="band_positions_not_pixels" if integrate and dup else None))
+    if integrate and dup:
+        obs.append(Ob("integrated-value-deviates-only-by-the-recorded-double-counting", ok2))
     obs.append(Ob("stored-as-reference-values-in-list-order", env.conj([env.eq(be.gt, res[i]) for i, be in enumerate(bes)])))
     return obs
 
@@ -169,6 +197,13 @@ def homogeneity(env, kind, layers, integrate, size=14, kval=None):
     obs.append(Ob("uniform-image-gives-equal-intensities" + ("-integrated" if integrate else ""),
                   env.eq(ru[0], ru[1], tol=1e-9) & env.eq(ru[1], ru[2], tol=1e-9),
                   finding="integrated_uniform_image_not_equal" if integrate else None))
+    if integrate:
+        # what the recorded finding leaves: each interface reads u * (number of band positions) / length
+        okc = env.true()
+        for i, kd in enumerate(("horizontal", "diagonal", "curved")):
+            _, length = _band(LINES[kd], layers, (1, 1), (0, 0))
+            okc = okc & env.eq(ru[i] * length, u * len(_band.positions), tol=1e-9)
+        obs.append(Ob("uniform-image-integrated-value-is-grey-level-times-band-size-over-length", okc))
     return obs
 
 
@@ -203,10 +238,11 @@ def jobs(tier):
                     for rescale, offset in placements:
                         if quick and (rescale, offset) != placements[0] and (normalize or len(kinds) != 2):
                             continue
-                        js.append(Job(f"statistic-{'+'.join(kinds)}-L{layers}-int{int(integrate)}-{normalize}-r{rescale}-o{offset}", "c17:statistic",
-                                      dict(kinds=kinds, layers=layers, integrate=integrate, normalize=normalize, rescale=list(rescale), offset=list(offset),
-                                           size=(14 if quick else 20) * max(rescale) + 4), budget_s=900, weight=3 if layers else 1,
-                                      opts=dict(div_policy="assume") if normalize else {}))
+                        for sign in ((1, -1) if normalize else (1,)):
+                            js.append(Job(f"statistic-{'+'.join(kinds)}-L{layers}-int{int(integrate)}-{normalize}{'' if sign > 0 else '-negative-mean'}-r{rescale}-o{offset}", "c17:statistic",
+                                          dict(kinds=kinds, layers=layers, integrate=integrate, normalize=normalize, rescale=list(rescale), offset=list(offset),
+                                               size=(14 if quick else 20) * max(rescale) + 4, sign=sign), budget_s=900, weight=3 if layers else 1,
+                                          opts=dict(div_policy="assume") if normalize else {}))
     for kind in ("horizontal", "general"):
         for layers in (0, 1):      # 25-pixel median windows: the per-window homogeneity lemma is not decided within 60 s
             for integrate in (False, True):
